@@ -48,7 +48,11 @@ Definition cmap : Type := list cfield.
 
 Definition is_regular (n : Z) : bool := (0 <=? n) && (n <=? 3).
 
-(* StripRegularConditionals: the four regular conditionals are deleted by name; If-Range stays *)
+(* StripRegularConditionals: the four regular conditionals are deleted by name; If-Range stays.
+   DOMAIN: since fix bd24877 handleHTTP strips only for GET and HEAD; on every other method the client's
+   preconditions are passed on to the origin (Model/Relay.v after_cache_layer, theorem C08_write_preconditions).
+   This model keeps one strip for all methods: for methods other than GET/HEAD it describes the code on requests
+   WITHOUT regular conditionals (strip is the identity there), and that is how the harness exercises it. *)
 Definition strip_regular (h : cmap) : cmap := filter (fun f => negb (is_regular (fst f))) h.
 
 (* http.Header.Set *)
